@@ -30,7 +30,7 @@ func TestC09(t *testing.T) {
 		Warmup:         storesim.Warmup,
 		Describe:       func(pl interface{}) interface{} { return storesim.DescribeHPlan(pl.(*storesim.HPlan)) },
 		Tier:           "A",
-		RequiredProbes: []string{"compaction-level1", "compaction-level2", "compaction-full", "compaction-optimize", "compaction-arbitrary-group", "multi-block-key", "snapshot-failed-by-injection"},
+		RequiredProbes: []string{"compaction-level1", "compaction-level2", "compaction-full", "compaction-arbitrary-group", "multi-block-key", "snapshot-failed-by-injection"},
 		Real:           []string{"tsdb.Store", "tsdb.Shard", "tsm1 engine (WAL, cache, compactor, file store, tombstoner, iterators, array cursors)", "series file", "inmem and tsi1 index", "real files on tmpfs"},
 		Stub:           []string{"none; background tickers are off, the driver issues every snapshot and compaction through the engine's own entry points"},
 		Assumptions:    []string{"points per block are not held to Compactor.Size (cache snapshots chunk at 1000 and the fast path copies blocks as they are)"},
